@@ -1,4 +1,4 @@
-import MqttVerif.Proofs.ProtoFrame
+import MqttVerif.Proofs.TimerFrame
 import MqttVerif.Proofs.EnvOk
 /-
   C19, the mechanism the property is anchored in: "every access goes through [self.addr]".
@@ -19,9 +19,17 @@ import MqttVerif.Proofs.EnvOk
   addresses had nothing unfinished (always so when the next identifier of the counter is free, `idAgree_of_next_free`).  That the
   identifiers nevertheless never collide is `C19.identifiers_never_collide`.
 
-  What this does NOT say (and the solo-replay comparison on the real code checks on every run): that the request objects, timers and
-  protocol objects reached through those entries are disjoint between addresses -- that part is carried by the invariant
-  (`retry_timer_same_address`, `one_live_protocol_per_address`, `loss_leaves_other_addresses`), not by a bisimulation.
+  The object layer, in every state reachable from a fresh factory (`WInv`; `Env` for the operation): an operation run by a protocol of
+  another address leaves untouched
+    * every request object A's dictionaries refer to -- bytes, identifier, QoS, Deferred, timer reference, interval (`other_step_requests`),
+    * the Deferreds of those requests: still theirs, still unfired (`other_step_deferreds`),
+    * every pending retransmission timer of A's requests and the pending keepalive timers of A's protocols (`other_step_timers`; and no
+      operation at all re-programs a timer, `timers_never_reprogrammed`),
+    * every protocol object but its own (`writes_own_protocol_only`, no invariant needed).
+
+  What is still NOT one theorem (and the solo-replay comparison on the real code checks on every run): the composition of all this into a
+  bisimulation "the interleaved run restricted to A = A's solo run with identifiers renamed"; handshake records and `onDisconnection`
+  timers are covered by the invariant (`connecting`, `connackOwned`) and by C04's theorems, not by a frame theorem of their own.
 -/
 namespace Mqtt.C19
 open Mqtt
@@ -54,6 +62,38 @@ theorem idAgree_of_next_free (A : Nat) (w : World) (h : idInUse w (bumpId w.next
     whether it serves another address or (an earlier, lost one) the same -/
 theorem writes_own_protocol_only (w : World) (op : Op) (p q : Nat) (hop : op.proto? w = some p) (hq : q ≠ p) :
     (step w op).protos.get? q = w.protos.get? q := step_protos w op q (by rw [hop]; exact hq)
+
+/-- **request objects and their Deferreds**: in a state reachable from a fresh factory (`WInv`), an operation run by a protocol of another
+    address leaves every request object that the dictionaries of address `A` refer to exactly as it was: the packet bytes (and so the DUP
+    bit), identifier, QoS, the Deferred it will fire, its retry-timer reference and retry interval -/
+theorem other_step_requests {w : World} (hw : WInv w) {op : Op} {q A : Nat} (hop : op.proto? w = some q) (hq : w.paddr q ≠ A) :
+    ∀ e ∈ w.ents, e.addr = A → (step w op).reqs.get? e.rid = w.reqs.get? e.rid := Mqtt.other_step_requests hw hop hq
+
+/-- **timers**: in a reachable state, an operation run by a protocol of another address leaves every pending retransmission timer of a request
+    of address `A` and the pending keepalive timers of a protocol of address `A` exactly as they are (due time, callback, status) -/
+theorem other_step_timers {w : World} (hw : WInv w) {op : Op} (henv : Env w op) {q A : Nat} (hop : op.proto? w = some q) (hq : w.paddr q ≠ A)
+    (t p : Nat) (hp : w.paddr p = A) (k : TKind) (hk : (∃ rid, k = .retry p rid) ∨ k = .pingAlarm p ∨ k = .pingLoop p)
+    (hpend : Pending w t k) : (step w op).timers.get? t = w.timers.get? t := Mqtt.other_step_timers hw henv hop hq t p hp k hk hpend
+
+/-- **pending Deferreds**: the Deferred of every request that the dictionaries of address `A` hold is still the Deferred of that request and
+    still unfired after any operation run by a protocol of another address (it can only be fired by an operation of its own address) -/
+theorem other_step_deferreds {w : World} (hw : WInv w) {op : Op} (henv : Env w op) {q A : Nat} (hop : op.proto? w = some q) (hq : w.paddr q ≠ A)
+    (e : Ent) (he : e ∈ w.ents) (hea : e.addr = A) (d : Nat) (hd : (w.req e.rid).dfd = some d) :
+    e ∈ (step w op).ents ∧ ((step w op).req e.rid).dfd = some d ∧ d ∉ (step w op).fired := by
+  have hw' : WInv (step w op) := step_inv hw op henv
+  have hsame := Mqtt.other_step hop hq
+  have he' : e ∈ (step w op).ents := by
+    have : e ∈ w.ents.filter (onA A) := List.mem_filter.mpr ⟨he, by simp [onA, hea]⟩
+    rw [← hsame.1] at this
+    exact (List.mem_filter.mp this).1
+  have hreq : (step w op).req e.rid = w.req e.rid := by
+    simp only [World.req, Mqtt.other_step_requests hw hop hq e he hea]
+  exact ⟨he', by rw [hreq]; exact hd, (hw'.dfdFresh e he' d (by rw [hreq]; exact hd)).2⟩
+
+/-- and no operation whatsoever re-programs a timer: due time and callback of every DelayedCall are fixed when it is created -/
+theorem timers_never_reprogrammed {w : World} (hw : WInv w) (op : Op) (t : Nat) (tm : Timer) (ht : w.timers.get? t = some tm) :
+    ∃ tm', (step w op).timers.get? t = some tm' ∧ tm'.due = tm.due ∧ tm'.kind = tm.kind :=
+  (step_timers_keep w (fun t tm h => hw.timerFresh t tm h) op).keep t tm ht
 
 /-! ### histories -/
 
@@ -124,6 +164,11 @@ theorem twoUp_env : EnvRun (World.init 3) (twoUp ++ onOne ++ onZero) := envRunOk
 /-- the activity on address 1 is foreign to address 0, whose dictionaries hold two requests at that point -/
 example : foreign 0 (run (World.init 3) twoUp) onOne = true ∧ ((run (World.init 3) twoUp).ents.filter (onA 0)).length = 2
     ∧ ((run (World.init 3) (twoUp ++ onOne)).ents.filter (onA 1)).length = 0 := by decide +kernel
+/-- the hypotheses of `other_step_requests` / `other_step_timers` are met there: address 0 has a pending retry timer (timer 4, request 0)
+    and address 1 pending keepalive timers while operations are run for the other address -/
+example : ((run (World.init 3) twoUp).timers.get? 4).map (fun t => (t.kind, t.status)) = some (.retry 0 0, .pending)
+    ∧ ((run (World.init 3) twoUp).timers.get? 2).map (fun t => (t.kind, t.status)) = some (.pingAlarm 1, .pending)
+    ∧ (run (World.init 3) twoUp).paddr 0 = 0 ∧ (run (World.init 3) twoUp).paddr 1 = 1 := by decide +kernel
 /-- and the later activity on address 0 is `mine` -/
 example : mine 0 (run (World.init 3) (twoUp ++ onOne)) onZero = true := by decide +kernel
 
